@@ -32,6 +32,7 @@ func rulesC17(c *Ctx) {
 	ruleGetEntriesLookups(c)
 	ruleStatusCompare(c)
 	ruleStatusOptions(c)
+	ruleOptionProbes(c, "chk", 2)
 }
 
 // detailKeyFields: the key fields of client.OpDetailsResults (everything except Type).
